@@ -160,11 +160,10 @@ pub fn prepare_in(b: &Behaviour, dna: &[u16], env: &Env) -> Option<Prepared> {
     // come from the type definition and what educe generates for it
     let body = if env.shadow {
         format!(
-            "use super::prelude::*;\npub mod hostile {{\nuse educe::Educe;\nuse crate::prelude::*;\n{}\n{}{}{}\npub mod obs {{\n#![allow(warnings)]\nuse crate::prelude::*;\nuse super::{};\n{}{}\n{}}}\n}}\npub fn run(o: &mut Out) {{ hostile::obs::run(o) }}\n",
+            "use super::prelude::*;\npub mod hostile {{\nuse educe::Educe;\nuse crate::prelude::*;\n{}\n{}{}\npub mod obs {{\n#![allow(warnings)]\nuse crate::prelude::*;\nuse super::{};\n{}{}\n{}}}\n}}\npub fn run(o: &mut Out) {{ hostile::obs::run(o) }}\n",
             shadows_for(&spec),
             spec.render_def(),
             spec.render_support_impls(),
-            spec.extra_items.join("\n"),
             spec.name,
             spec.render_vals_fn(),
             spec.render_variant_of(),
@@ -172,11 +171,10 @@ pub fn prepare_in(b: &Behaviour, dna: &[u16], env: &Env) -> Option<Prepared> {
         )
     } else {
         format!(
-            "{}{}{}{}\npub mod obs {{\n#![allow(warnings)]\nuse super::*;\n{}{}\n{}}}\npub fn run(o: &mut Out) {{ obs::run(o) }}\n",
+            "{}{}{}\npub mod obs {{\n#![allow(warnings)]\nuse super::*;\n{}{}\n{}}}\npub fn run(o: &mut Out) {{ obs::run(o) }}\n",
             std_header(),
             spec.render_def(),
             spec.render_support_impls(),
-            spec.extra_items.join("\n"),
             spec.render_vals_fn(),
             spec.render_variant_of(),
             rendered.observer
